@@ -213,7 +213,7 @@ func TestC07(t *testing.T) {
 		}
 		var st *lib.Stmt
 		for try := 0; ; try++ {
-			st = lib.GenSelect(rt, kind, pairs, lib.SelOpts{Aliases: true, Aggregate: 1, MinFields: 1, MixedNumeric: true})
+			st = lib.GenSelect(rt, kind, pairs, lib.SelOpts{Aliases: true, Aggregate: 1, MinFields: 1, MixedNumeric: true, NameChains: true})
 			lib.ForceOrder(rt, st)
 			if len(st.Order) > 0 || try > 3 {
 				break
